@@ -192,7 +192,12 @@ func Run(p *Pool, op Op, files map[int]*fit.File) (res string) {
 			ord = binary.BigEndian
 		}
 		err := fit.Encode(&buf, f, ord)
-		return fmt.Sprintf("err=%s bytes=%s hdr=%v crc=%d", errText(err), hex.EncodeToString(buf.Bytes()), f.Header, f.CRC)
+		res := fmt.Sprintf("err=%s bytes=%s hdr=%v crc=%d", errText(err), hex.EncodeToString(buf.Bytes()), f.Header, f.CRC)
+		if msg := prof.SpareIntact(f); msg != "" {
+			// judged by the caller whatever the baseline says
+			res += "\nOUTSIDE-THE-FILE: " + msg
+		}
+		return res
 	case "encodebad":
 		// an Encode call that fails part-way: a string that is not UTF-8
 		f, err := gen.BuildFile(p.Specs[op.Idx])
@@ -398,6 +403,13 @@ func BuildPool(seed int) *Pool {
 		// byte-array fields longer and shorter than their profile length in
 		// the same pool (anything that adapts shared tables to the data
 		// would show between these)
+		// an array shorter than its profile length (speed_1s: 5), so that the
+		// encoder has to pad it
+		p.Specs = append(p.Specs, &gen.FileSpec{Type: 4, Proto: 0x20, FileId: gen.MsgSpec{Fields: map[string]fitmodel.Val{}},
+			Slots: []gen.SlotSpec{{Name: "Records", Msgs: []gen.MsgSpec{
+				{Global: 20, Fields: map[string]fitmodel.Val{"Speed1s": fitmodel.Arr([]fitmodel.Val{fitmodel.U(10), fitmodel.U(11), fitmodel.U(12)})}},
+				{Global: 20, Fields: map[string]fitmodel.Val{"Speed1s": fitmodel.Arr([]fitmodel.Val{fitmodel.U(20)}), "HeartRate": fitmodel.U(99)}},
+			}}}})
 		for _, n := range []int{1, 12, 3} {
 			elems := make([]fitmodel.Val, n)
 			for i := range elems {
